@@ -51,6 +51,10 @@ type StdinSpec struct {
 	Plan        []int  `json:"plan,omitempty"` // chunk plan
 	EOFWithData bool   `json:"eof_with_data,omitempty"`
 	Redirect    bool   `json:"redirect,omitempty"` // stdin is a regular file (shell "<"), not a pipe
+	// Consumed: with Redirect, bytes at the start of that file which the
+	// parent read before starting jd (`{ read hdr; jd a; } < file`); jd's
+	// descriptor 0 continues behind them
+	Consumed Blob `json:"consumed,omitempty"`
 }
 
 // ProcSpec is one simulated process.
@@ -172,6 +176,11 @@ func runProc(fs *simos.FS, spec ProcSpec, io IOCfg, prevStdout []byte) ProcResul
 			st.Data = prevStdout
 		case strings.HasPrefix(s.From, "file:"):
 			st.Data = append([]byte(nil), fs.Files[strings.TrimPrefix(s.From, "file:")]...)
+		}
+		if s.Redirect && len(s.Consumed) > 0 {
+			st.Data = append(append([]byte(nil), s.Consumed...), st.Data...)
+			st.Skip = len(s.Consumed)
+			st.Reset()
 		}
 		p.Stdin = st
 	}
